@@ -25,7 +25,7 @@ CACHE_NAME = "simcache"
 RES_FAULTS = ("NOTFOUND", "ERR_BEFORE", "ERR_MID", "ERR_AFTER", "RET_FALSE_BEFORE", "RET_FALSE_MID", "INTERRUPT_MID")
 NET_FAULTS = ("HTTP_404", "HTTP_5XX", "CONN_ERR", "TIMEOUT")
 FS_FAULTS = ("EIO", "ENOSPC", "SHORT_WRITE", "EMFILE", "SRC_MISSING", "RENAME_EIO")
-PP_FAULTS = ("PP_ERR_BEFORE", "PP_ERR_MID", "PP_ERR_AFTER")
+PP_FAULTS = ("PP_ERR_BEFORE", "PP_ERR_MID", "PP_ERR_AFTER", "PP_INTERRUPT_MID")
 VAL_FAULTS = ("VALIDATE_FALSE", "VALIDATE_IOERROR")
 ALL_FAULTS = RES_FAULTS + NET_FAULTS + FS_FAULTS + PP_FAULTS + VAL_FAULTS
 
@@ -485,6 +485,8 @@ class World:
             f.flush()
             if kind == "PP_ERR_MID":
                 raise InjectedError("injected: post-processor failed part-way")
+            if kind == "PP_INTERRUPT_MID":
+                raise KeyboardInterrupt()
             f.write(out[half:])
         if kind == "PP_ERR_AFTER":
             raise InjectedError("injected: post-processor failed after writing")
@@ -887,7 +889,8 @@ class World:
             p = self.path_of_key[op["key"]]
             if self.fs.h_exists(p):
                 t = (self.clock.now + op["delta"])
-                os.utime(p, ns=(t, t))
+                ta = t if op.get("delta_a") is None else self.clock.now + op["delta_a"]
+                os.utime(p, ns=(ta, t))  # atime and mtime may be set independently (touch -a / touch -m)
         elif kind == "USER_READ":
             p = self.path_of_key[op["key"]]
             if self.fs.h_exists(p):
